@@ -13,7 +13,7 @@
    notification is registered on that condition (known finding
    C32-enable-no-notify); it is identically true for the patched code. *)
 From DustDDS Require Import Base.Machine Sched.StatusCondModel Sched.StatusCondProofs
-                            Sched.StatusCondWaitProofs.
+                            Sched.StatusCondWaitProofs Sched.StatusCondCountProofs.
 Close Scope Z_scope.
 Open Scope nat_scope.
 
@@ -126,6 +126,22 @@ Theorem C32_wait_alone_returns_or_parks_with_all_false :
            parked_all_false (wrun fx (w_init nc nw) (ops ++ repeat (WStep w) n)) wt').
 Proof. exact reach_waiter_alone_returns_or_parks. Qed.
 
+(* a running wait call always holds a sender of its own notification channel ... *)
+Theorem C32_running_wait_holds_a_sender :
+  forall fx nc nw ops, w_d6_free fx (w_init nc nw) ops = true ->
+    forall w wt, nth_error (w_waiters (wrun fx (w_init nc nw) ops)) w = Some wt ->
+      has_chan (w_pc wt) = true ->
+      exists x, nth_error (chans (w_sys (wrun fx (w_init nc nw) ops))) (w_ch wt) = Some x /\ 1 <= senders x.
+Proof. exact owner_holds_a_sender. Qed.
+
+(* ... hence its receiver never reports "all senders dropped": no wait call ends
+   with Err(AlreadyDeleted) (Err 2) on its own *)
+Theorem C32_wait_never_returns_already_deleted :
+  forall fx nc nw ops, w_d6_free fx (w_init nc nw) ops = true ->
+    forall w wt, nth_error (w_waiters (wrun fx (w_init nc nw) ops)) w = Some wt ->
+      w_pc wt <> Done (Err 2%Z).
+Proof. exact wait_never_already_deleted. Qed.
+
 (* ---- the known class *)
 
 (* the patched set_enabled_statuses has no excluded history: everything above
@@ -179,6 +195,8 @@ Print Assumptions C32_parked_waiter_is_woken_at_the_step.
 Print Assumptions C32_wait_returns_at_once_if_a_condition_is_true.
 Print Assumptions C32_wait_returns_when_a_condition_became_true.
 Print Assumptions C32_wait_alone_returns_or_parks_with_all_false.
+Print Assumptions C32_running_wait_holds_a_sender.
+Print Assumptions C32_wait_never_returns_already_deleted.
 Print Assumptions C32_patched_code_excludes_nothing.
 Print Assumptions C32_enabling_a_changed_status_loses_the_wakeup.
 Print Assumptions C32_direct_registered_implies_trigger_false.
